@@ -80,9 +80,17 @@ def cases(prop, shard, nshards, seed, tier, want_models=False):
     # the record name (HETATM10001), modified nucleotides as HETATM, coordinates <= -100 / >= 1000 that fill their eight
     # columns, negative residue numbers, Windows line endings
     for t, fn in enumerate(("tests/1ehz-assembly-1.cif", "tests/1ATO.pdb", "tests/488d.pdb", "tests/4qln.pdb", "tests/1E7K_1_C.cif", "tests/1A1T_1_B.cif")):
-        for v in range(2 if tier == "quick" else 6):
+        for v in list(range(2 if tier == "quick" else 6)) + [9]:
+            # v == 9: PDB text whose atom serial numbers pass 99999 half-way (ATOM 100000: the sixth digit takes the
+            # blank column after the record name, as several programs write very large systems)
             if mine():
                 yield {"family": "through-reader-field-edges", "file": fn, "t": t * 10 + v, "ops": []}
+    # through the real reader: mmCIF text of a single-chain molecule that carries the entity's canonical sequence
+    # (_entity_poly), in which the first, the last and two inner nucleotides are modified components whose NAMES say
+    # nothing reliable about the base (8AN, C5N, G7N, U8N): the base of every residue is the one the sequence gives
+    for t, fn in enumerate(("tests/1A1T_1_B.cif", "tests/1E7K_1_C.cif", "tests/1ATO.pdb", "tests/1DFU_1_M-N.cif")):
+        if mine():
+            yield {"family": "through-reader-canonical-sequence", "file": fn, "t": t, "ops": []}
     # through the table-level reader, the fitting to PDB limits and the PDB writer, then the residue-level reader: models
     # that are not numbered 1..N (a selection from an ensemble), chains of mixed name lengths (B next to A-2), insertion
     # codes under a chain name that needs renaming
@@ -460,6 +468,12 @@ def field_edges_text(seed, prop, case, want_rows=False):
     fmt = ".pdb" if rng.random() < 0.75 else ".cif"
     if fmt == ".pdb" and not (emit.fits_pdb(rows) and all((r["chain"] or "").strip() and len(r["chain"]) == 1 for r in rows)):
         fmt = ".cif"
+    if case["t"] % 10 == 9 and emit.fits_pdb(rows) and all(r["rec"] == "ATOM" and (r["chain"] or "").strip() and len(r["chain"]) == 1 for r in rows):
+        fmt = ".pdb"
+        first = 100000 - len(rows) // 2
+        for i, r in enumerate(rows):
+            r["serial"] = first + i
+        desc["serials-from"], desc["six-digit-serials"] = first, True
     text = emit.emit_pdb(rows) if fmt == ".pdb" else emit.emit_cif(rows)
     tv = rng.choice([0, 0, 1, 2])
     text = emit.text_variant(text, tv, fmt[1:])
@@ -649,6 +663,56 @@ def run_case(prop, case, rec, call):
         rec.check("file.annotation-equals-annotation-of-the-written-atoms", a == b,
                   lambda: {"ctx": desc, "only-for-the-file": sorted(map(str, a - b))[:5], "only-for-the-written-atoms": sorted(map(str, b - a))[:5],
                            "residues": [len(s.residues), len(twin.residues)], "atoms": [sum(len(r.atoms) for r in s.residues), sum(len(r.atoms) for r in twin.residues)]})
+        return
+    if fam == "through-reader-canonical-sequence":
+        from vmon import emit
+
+        src = gen3d.load(case["file"], 1)
+        chains = []
+        for r in src.residues:
+            if r.auth is not None and r.auth.chain not in chains:
+                chains.append(r.auth.chain)
+        keep = [r for r in src.residues if r.auth is not None and r.auth.chain == chains[0] and r.one_letter_name.upper() in "ACGU" and r.is_nucleotide] if chains else []
+        if len(keep) < 6:
+            rec.skip("file.annotation-equals-annotation-of-the-written-atoms", "fewer than six nucleotides in the first chain")
+            return
+        from rnapolis import tertiary
+
+        rows = emit.rows_from_structure(tertiary.Structure3D(keep))
+        order = []
+        for r in rows:
+            k = (r["chain"], r["resseq"], r["icode"])
+            if k not in order:
+                order.append(k)
+        true = {k: res.one_letter_name.upper() for k, res in zip(order, keep)}
+        rng = random.Random(f"{seed}:{prop}:canonical:{case['t']}")
+        chosen = set(rng.sample(order[1:-1], 2)) | {order[0], order[-1]}
+        other = {"A": "8AN", "C": "C5N", "G": "G7N", "U": "U8N"}
+        for r in rows:
+            k = (r["chain"], r["resseq"], r["icode"])
+            if k in chosen:
+                r["resname"], r["rec"] = other[true[k]], "HETATM"
+        extra = [("entity", ["id", "type"], [["1", "polymer"]], "kv"),
+                 ("entity_poly", ["entity_id", "type", "pdbx_seq_one_letter_code_can"], [["1", "polyribonucleotide", "".join(true[k] for k in order)]], "kv")]
+        desc = {"file": case["file"], "through-reader": True, "chain": chains[0], "modified-components-at": [order.index(k) for k in order if k in chosen], "of": len(order), "entity_poly": True}
+        mon3d._cur["ctx"] = desc
+        try:
+            s = emit.read_text(emit.emit_cif(rows, extra_cats=extra), ".cif")
+        except Exception as e:
+            rec.undecided("file.annotation-equals-annotation-of-the-written-atoms", f"reader raised {type(e).__name__}")
+            return
+        n = call(s, None)
+        rec.mark_nontrivial(n > 0)
+        twin = structure_from_rows(rows, s, letters_in_order=[true[k] for k in order])
+        mon3d._cur["ctx"] = dict(desc, twin="in-memory structure of the written table, bases as the canonical sequence gives them")
+        try:
+            a, b = _interaction_keys(s, prop), _interaction_keys(twin, prop)
+        except Exception as e:
+            rec.undecided("file.annotation-equals-annotation-of-the-written-atoms", f"annotation raised {type(e).__name__}")
+            return
+        rec.check("file.annotation-equals-annotation-of-the-written-atoms", a == b,
+                  lambda: {"ctx": desc, "only-for-the-file": sorted(map(str, a - b))[:5], "only-for-the-written-atoms": sorted(map(str, b - a))[:5],
+                           "letters-read": "".join(r.one_letter_name for r in s.residues)[:80]})
         return
     if fam == "through-reader-superposed-copies":
         s, desc = superposed_text(seed, prop, case)
